@@ -61,7 +61,7 @@ CHECKS = {
         technique="deterministic simulation: per-process projection of a loaded multi-process run vs solo runs with capacity-driven eviction faults (layer 1) + seeded preemptive schedules of client threads against the engine thread at lock points (layer 2)",
         ref="DESIGN.md §6 C13"),
     "C15": dict(
-        text="Seeded search over parent/child(/grandchild) models, child endings (completed, error by the client, failure of the child by itself - throwing script, missing grandchild model: an error without a code -, aborted, missing model) and interleavings of the child's return with other parent activity: the calling act is open at every quiescent point before the child's terminal event, closed exactly once afterwards with the prescribed state/data/error, the child's inputs equal the call's options, the successor starts once and only after the call is closed, the parent's terminal event is generated after the child's. Sampling: evidence, not proof.",
+        text="Seeded search over parent/child(/grandchild) models, child endings (completed, error by the client, failure of the child by itself - throwing script, missing grandchild model: an error without a code -, aborted, missing model), a catch on the calling act in a sixth of the cases (a failed child is then taken by it), and interleavings of the child's return with other parent activity: the calling act is open at every quiescent point before the child's terminal event, closed exactly once afterwards with the prescribed state/data/error, the child's inputs equal the call's options, the successor starts once and only after the call is closed, the parent's terminal event is generated after the child's. Sampling: evidence, not proof.",
         note="Trusted: H1 live dumps at quiescent points, id shim for event generation order. Child ending `skipped` is not reachable through client actions and is not generated.",
         technique="deterministic simulation: seeded interleaving of sub-process return and parent activity, trace/dump oracle",
         ref="DESIGN.md §6 C15"),
